@@ -294,7 +294,7 @@ def _templates():
     mol['MSH'] = ([('S1', 'S', (0, 0, 0)), ('C1', 'C', _tet(0, 1.82))], {'S1': 'SH'}, 'S1')
     o4 = _tet(3, 1.60)
     mol['MPO'] = ([('P1', 'P', (0, 0, 0)), ('O1', 'O', _tet(0, 1.50)), ('O2', 'O', _tet(1, 1.50)), ('O3', 'O', _tet(2, 1.50)),
-                   ('O4', 'O', o4), ('C1', 'C', _addv(o4, _tet(0, 1.43)))], {'O1': 'OP', 'O2': 'OP', 'O3': 'OP', 'O4': 'O3'}, 'O1')
+                   ('O4', 'O', o4), ('C1', 'C', _addv(o4, tuple(1.43 * c / math.sqrt(3) for c in (-1, 1, 1))))], {'O1': 'OP', 'O2': 'OP', 'O3': 'OP', 'O4': 'O3'}, 'O1')
     mol['CFM'] = ([('C1', 'C', (0, 0, 0)), ('F1', 'F', _tet(0, 1.38)), ('C2', 'C', _tet(1, 1.53))], {'F1': 'F'}, 'F1')
     mol['CCL'] = ([('C1', 'C', (0, 0, 0)), ('CL1', 'Cl', _tet(0, 1.77)), ('C2', 'C', _tet(1, 1.53))], {'CL1': 'Cl'}, 'CL1')
     mol['ACT'] = ([('C1', 'C', (0, 0, 0)), ('O1', 'O', _pol(1.25, 210)), ('O2', 'O', _pol(1.25, 330)),
